@@ -173,6 +173,12 @@ def decode(m, v, model, depth=0):
                 val = model[d]
                 if z3.is_int_value(val):
                     cands.add(val.as_long())
+                else:
+                    import re as _re
+
+                    for tok in _re.findall(r"-?\d+", str(val))[:200]:
+                        if len(tok) < 9:
+                            cands.add(int(tok))
             except Exception:
                 pass
         keys = []
@@ -331,6 +337,8 @@ class Verifier:
         if getattr(ccls, "label", None):
             label = (prop + "/" if prop else "") + ccls.label
         m.check_prefix = label
+        m.shape = shape
+        m.concretize_ranges = not m.modular
         try:
             f = self.target_func(m, ccls.target)
         except Exception as e:
@@ -374,9 +382,15 @@ class Verifier:
                         ns[pname] = shape[pname]  # scalar fixed by the shape of this unit
                     else:
                         ns[pname] = m.fresh(pt, pname, shape)
-                s = Namespace(ns)
+                m.ghost_state = None
                 if getattr(ccls, "ghost", None):
                     m.ghost_state = {g: m.fresh(gt, "ghost." + g, shape) for g, gt in ccls.ghost.items()}
+                    m.ghost_state["log"] = SList([])
+                    m.ghost_ns = Namespace(m.ghost_state)
+                    m.ghost_state = m.ghost_ns.d
+                    ns["G"] = m.ghost_ns
+                    m.ghost_initial = m.snapshot(Namespace({k: v for k, v in m.ghost_state.items() if k != "log"}))
+                s = Namespace(ns)
                 for v in ns.values():
                     self.assume_invariants(m, v)
                 if req is not None:
@@ -463,6 +477,8 @@ class Verifier:
                 msg = str(u)
                 if msg not in res.unsupported:
                     res.unsupported.append(msg)
+                    if os.environ.get("PYVC_DEBUG"):
+                        traceback.print_exc()
             except (_Break, _Continue, _Return):
                 res.unsupported.append("stray control flow")
             except RecursionError:
@@ -557,6 +573,12 @@ def discharge(res, timeout_ms=20000, unit_budget_s=None):
                 m = ob.machine
                 try:
                     ob.witness = decode(m, m.input_ns, model)
+                    if isinstance(ob.witness, dict):
+                        ob.witness.pop("G", None)
+                        if getattr(ob, "abs_returns", None):
+                            ob.witness["__abstract_returns__"] = [[i, n, decode(m, r, model)] for i, n, r in ob.abs_returns]
+                        if getattr(ob, "ghost0", None) is not None:
+                            ob.witness["__ghost__"] = decode(m, ob.ghost0, model)
                 except Exception as e:  # decoding must never turn into a verdict
                     ob.witness = {"__decode_error__": repr(e)}
     return res
